@@ -20,8 +20,8 @@ package main
 //	C08.hidden.geometry[.wrap]  fields at the ABI offsets equal the launch geometry
 //	C08.hidden.size          sizes derived from the hidden arguments = CurrSize of every real work-group
 //	C08.packet.layout        byte offsets of the dispatch packet = AQL
-//	C08.wgdist64.partition   (< 2^63 groups) probe accepted by exactly one launched GPU
-//	C08.wgdist64.overflow    (>= 2^63 groups) same statement, where the int product overflows
+//	C08.wgdist64.partition   (groups + CUs - 1 < 2^63) probe accepted by exactly one launched GPU, no fault
+//	C08.wgdist64.overflow    (groups + CUs - 1 >= 2^63) same statement, where the int arithmetic overflows
 
 import (
 	"bytes"
@@ -371,7 +371,13 @@ func c08sDist64(r *Run, g, w c08Geo, cus []int, probe c08Geo) {
 	nx, ny, nz := c08dCount(g[0], w[0]), c08dCount(g[1], w[1]), c08dCount(g[2], w[2])
 	tot := new(big.Int).Mul(new(big.Int).SetUint64(nx), new(big.Int).SetUint64(ny))
 	tot.Mul(tot, new(big.Int).SetUint64(nz))
-	over := tot.Cmp(new(big.Int).Lsh(big.NewInt(1), 63)) >= 0
+	// `(totalWGCount + totalCUCount - 1)` is the largest int the split computes
+	sumCU := 0
+	for _, c := range cus {
+		sumCU += c
+	}
+	top := new(big.Int).Add(tot, big.NewInt(int64(sumCU-1)))
+	over := top.Cmp(new(big.Int).Lsh(big.NewInt(1), 63)) >= 0
 	sig := "C08.wgdist64.partition"
 	if over {
 		sig = "C08.wgdist64.overflow"
@@ -430,6 +436,8 @@ func runC08Regs(r *Run, rng *Rng, replay string) {
 	c08sDist64(r, c08Geo{4294967295, 4294967295, 2}, c08Geo{1, 1, 1}, []int{4, 4}, c08Geo{5, 5, 1})
 	c08sDist64(r, c08Geo{4294967295, 4294967295, 1}, c08Geo{2, 1, 1}, []int{4, 4}, c08Geo{5, 5, 0}) // 2^63 - 2^31 groups
 	c08sDist64(r, c08Geo{4294967295, 2147483649, 1}, c08Geo{1, 1, 1}, []int{1}, c08Geo{0, 0, 0})
+	c08sDist64(r, c08Geo{454279, 31252369, 649657}, c08Geo{1, 1, 1}, []int{4, 4}, c08Geo{1, 1, 1}) // 2^63-1 groups: total+CUs-1 overflows
+	c08sDist64(r, c08Geo{454279, 31252369, 649657}, c08Geo{1, 1, 1}, []int{1}, c08Geo{1, 1, 1})    // 2^63-1 groups, one CU: fits
 
 	n := 400
 	if thorough {
